@@ -851,11 +851,25 @@ def run_lim(res, ast, with_jit=True):
     allowed_fns = {(OPS, "limit")}
     n = 0
 
+    def gate_names(fn_node):
+        """the names that mean "this run is limited" inside a function: its const generic bool parameter (interpreters), or the
+        first of its two bool parameters (limited, safe); found by position, not by spelling"""
+        out = set()
+        gens = [g["name"] for g in fn_node["sig"]["generics"]["params"] if g["t"] == "ConstParam"]
+        if gens:
+            out.add(gens[0])
+        bools = [p_["pat"]["name"] for p_ in fn_node["sig"]["inputs"] if p_["t"] == "Arg" and p_["pat"]["t"] == "PIdent" and p_["ty"]["s"].strip() == "bool"]
+        if len(bools) == 2:
+            out.add(bools[0])
+        return out
+
+    GATE = [set()]
+
     def under_gate(node, par):
         cur = node
         while id(cur) in par:
             pn, k = par[id(cur)]
-            if pn["t"] == "If" and k == "then" and path_name(strip_paren(pn["cond"])) in ("LIMITED", "limited"):
+            if pn["t"] == "If" and k == "then" and path_name(strip_paren(pn["cond"])) in GATE[0]:
                 return True
             if pn["t"] == "If" and k == "then" and strip_paren(pn["cond"])["t"] == "Binary" and strip_paren(pn["cond"])["op"] == "&&":
                 c_ = strip_paren(pn["cond"])
@@ -864,10 +878,10 @@ def run_lim(res, ast, with_jit=True):
                     conj.append(strip_paren(c_["right"]))
                     c_ = strip_paren(c_["left"])
                 conj.append(c_)
-                if any(path_name(x) in ("LIMITED", "limited") for x in conj):
+                if any(path_name(x) in GATE[0] for x in conj):
                     return True
             if pn["t"] == "If" and k == "else" and strip_paren(pn["cond"])["t"] == "Unary" and strip_paren(pn["cond"])["op"] == "!" \
-                    and path_name(strip_paren(strip_paren(pn["cond"])["expr"])) in ("LIMITED", "limited"):
+                    and path_name(strip_paren(strip_paren(pn["cond"])["expr"])) in GATE[0]:
                 return True
             if pn["t"] == "Binary" and pn["op"] == "&&" and k == "right":
                 l_ = strip_paren(pn["left"])
@@ -876,7 +890,7 @@ def run_lim(res, ast, with_jit=True):
                     conj.append(strip_paren(l_["right"]))
                     l_ = strip_paren(l_["left"])
                 conj.append(l_)
-                if any(path_name(x) in ("LIMITED", "limited") for x in conj):
+                if any(path_name(x) in GATE[0] for x in conj):
                     return True
             cur = pn
         return False
@@ -891,7 +905,7 @@ def run_lim(res, ast, with_jit=True):
                 continue
             par_ = parents(fr["node"])
             for c_ in walk_t(fr["node"]["body"], "Call"):
-                if path_name(strip_paren(c_["func"])).split("::")[-1] == fname:
+                if (path_name(strip_paren(c_["func"])) or "").split("::")[-1] == fname:
                     sites.append((fr, c_, par_))
             for c_ in walk_t(fr["node"]["body"], "MethodCall"):
                 if c_["method"] == fname:
@@ -902,7 +916,14 @@ def run_lim(res, ast, with_jit=True):
                     return False
         if not sites:
             return False
-        return all(under_gate(c_, par_) or (fr["name"] != fname and fn_only_called_under_gate(path, fr["name"], depth + 1)) for fr, c_, par_ in sites)
+        def site_ok(fr, c_, par_):
+            saved = GATE[0]
+            GATE[0] = gate_names(fr["node"])
+            try:
+                return under_gate(c_, par_)
+            finally:
+                GATE[0] = saved
+        return all(site_ok(fr, c_, par_) or (fr["name"] != fname and fn_only_called_under_gate(path, fr["name"], depth + 1)) for fr, c_, par_ in sites)
 
     for path in files:
         for frec in ast.find_fns(path):
@@ -910,6 +931,7 @@ def run_lim(res, ast, with_jit=True):
                 continue
             par = parents(frec["node"])
             helper_ok = None
+            GATE[0] = gate_names(frec["node"]) if path != OPS else set()
             for fld in walk_t(frec["node"]["body"], "Field"):
                 if fld["member"] != "budget":
                     continue
@@ -931,7 +953,7 @@ def run_lim(res, ast, with_jit=True):
             cur = c
             while id(cur) in par:
                 pn, k = par[id(cur)]
-                if pn["t"] == "If" and k == "then" and path_name(strip_paren(pn["cond"])) == "limited":
+                if pn["t"] == "If" and k == "then" and path_name(strip_paren(pn["cond"])) in gate_names(f["node"]):
                     guarded = True
                 cur = pn
             res.check(guarded, "LIM-GUARD", f"{BCMOD}|build_threaded_code|emit_limit-guard|{ast.src1(BCMOD, c['args'][1])}",
